@@ -136,3 +136,16 @@ def c09_doc_has_known_bad_word(failure, type_, elements, bound):
                 return True
         stack.extend(kids)
     return False
+
+
+def c16_stale_required_repaired(failure):
+    """C16: the twin WITHOUT the intermediate serialisations ends with a missing-children verdict, the one WITH them
+    serialises, the script removed a child and contains a to_string(intelligent_choice=True): the intelligent-choice
+    pass repaired a stale 'required' mark left by remove()"""
+    o = failure.get('observed') or {}
+    script = failure['input'].get('script', [])
+    plan = failure['input'].get('plan', {})
+    removed = any(st[0] == 'mut' and st[1][0] == 'remove' for st in script) or bool(plan.get('readd'))
+    ic = any(st[0] == 'ser' and st[2] for st in script)
+    return removed and ic and isinstance(o.get('without'), str) and 'requires at least following children' in o['without'] \
+        and isinstance(o.get('with'), str) and o['with'].lstrip().startswith('<')
